@@ -334,3 +334,60 @@ func TestC10_IdentityPoint(t *testing.T) {
 		t.Fatal("zero-value point accepted as a public key without panic")
 	}
 }
+
+// propRecoveredKeys: public keys also come out of signature recovery.
+// Whatever RecoverPublicKey returns must be a valid key object (a non-identity
+// curve point whose cached encodings match), in particular on the degenerate
+// relation s*R = e*G, where the recovered point is the point at infinity and
+// no key may be returned.
+func propRecoveredKeys(t *rapid.T) {
+	k := gen.NonZero256(t, ref.N, "k")
+	R := ref.BaseMul(k)
+	r := ref.Mod(R.X, ref.N)
+	s := gen.NonZero256(t, ref.N, "s")
+	digest := gen.Bytes(t, 32, 32, "digest")
+	kind := gen.Sampled([]string{"generic", "Q=O", "Q=O", "Q=G"}).Draw(t, "kind")
+	switch kind {
+	case "Q=O": // e = s*k
+		digest = ref.B32(ref.MulM(s, k, ref.N))
+	case "Q=G": // s*R - e*G = r*G  <=>  e = s*k - r
+		digest = ref.B32(ref.SubM(ref.MulM(s, k, ref.N), r, ref.N))
+	}
+	v := byte(R.Y.Bit(0))
+	if R.X.Cmp(ref.N) >= 0 {
+		v |= 2
+	}
+	if r.Sign() == 0 {
+		t.Skip("r = 0")
+	}
+	want, ok := ref.ECDSARecover(digest, r, s, int(v))
+	stat.Case("recovered-keys", []string{"kind:" + kind, fmt.Sprintf("recoverable:%v", ok)}, true, []byte(fmt.Sprintf("%x|%x|%x|%d", digest, r, s, v)), func() any {
+		return map[string]any{"digest": stat.Hex(digest), "r": r.Text(16), "s": s.Text(16), "v": v, "kind": kind}
+	})
+	key, err := secec.RecoverPublicKey(digest, lib.Sc(r), lib.Sc(s), v)
+	if !ok {
+		if err == nil || key != nil {
+			what := "<nil>"
+			if key != nil {
+				what = fmt.Sprintf("%x", key.Bytes())
+			}
+			t.Fatalf("RecoverPublicKey returned a key object (%s) although the recovered point is not a valid public key (%s)", what, kind)
+		}
+		return
+	}
+	if err != nil || key == nil {
+		t.Fatalf("RecoverPublicKey failed on a recoverable signature: %v", err)
+	}
+	checkPubKey(t, key, want, "recovered key")
+	if kind == "Q=G" && !want.Eq(ref.G()) {
+		t.Fatalf("harness: Q=G construction gave %v", want)
+	}
+	// the key is usable: ECDH with it works and is symmetric
+	a := gen.NonZero256(t, ref.N, "a")
+	sec, err := lib.PrivKey(a).ECDH(key)
+	if err != nil || !bytes.Equal(sec, ref.B32(want.Mul(a).X)) {
+		t.Fatalf("ECDH with a recovered key: %x, %v", sec, err)
+	}
+}
+
+func TestC10_RecoveredKeys(t *testing.T) { rapid.Check(t, propRecoveredKeys) }
